@@ -39,6 +39,13 @@ CLAIMS = {
          "it failed without the connection quitting; Recv appends each received chunk to the kept partial buffer, returns only after a final chunk "
          "and never drops consumed chunks on a timeout.",
          "append is modelled as always allocating; transport faults are C01's matter."),
+ "C18": ("Race freedom as a schedule-independent permission discipline: every shared mutable field of queue, syncer, TimeoutManager, TimeoutBooster, "
+         "IntervalAwareForceTicker and GoBackNConn is declared guarded_by a mutex / atomic / immutable / owned_by a goroutine role, and an obligation is "
+         "generated and discharged at every access (lock held in the right mode, object not yet shared, or role matches); every Lock respects the "
+         "declared rank order and is covered by the function's acquires clause (checked transitively at call sites); Unlock only of held locks; "
+         "close only of open non-nil channels, no send on a channel some close() can close without knowing it is open.",
+         "Schedules are not enumerated. Fields without a declaration are not checked (queue.content, config fields); the bodies of anonymous goroutine "
+         "functions (ticker clock loop, handshake readers) are not under contract; races inside dependencies and deadlocks other than lock-order inversions are not covered."),
  "C19": ("Every Serialize method and Deserialize of gbn and MsgData.Serialize/Deserialize of mailbox are verified against functional contracts "
          "(exact output bytes, exact decoded fields, error iff not well-formed) for all field values and a symbolic 64-bit payload length; the two "
          "round-trip statements are lemma functions verified modularly over those contracts.",
